@@ -342,17 +342,40 @@ def native_frame(info):
 
 
 def replay_accessor(failure):
-    """drive the real Frame: take the view, (let the user) edit the source through its writable image, take the view again"""
+    """drive the real Frame (the failing shape first, then the same shape under the other colour labels: a counter-model's label need not be the one that shows natively)"""
+    info = dict(failure['extra'])
+    r = _replay_accessor_one(info)
+    if not r['confirmed'] and info.get('fmt') in ('RGB', 'BGR'):
+        r2 = _replay_accessor_one(dict(info, fmt='BGR' if info['fmt'] == 'RGB' else 'RGB'))
+        if r2['confirmed']:
+            return r2
+    return r
+
+
+def _replay_accessor_one(info):
+    """take the view, compare it with the documented conversion of the source pixels, (let the user) edit the source through its writable image, take the view again"""
     import numpy as np
     import cv2
-    info = failure['extra']
     acc = info['acc']
     f = native_frame(info)
     get = (lambda: getattr(f, acc)) if acc != 'copy' else (lambda: f.copy())
     obs = []
+    def conv(src_img, fmt_from, fmt_to):
+        if fmt_to == fmt_from:
+            return src_img
+        if 'GRAY' not in (fmt_to, fmt_from):
+            return cv2.cvtColor(src_img, cv2.COLOR_RGB2BGR)
+        if fmt_to == 'GRAY':
+            return cv2.cvtColor(src_img, cv2.COLOR_RGB2GRAY if fmt_from == 'RGB' else cv2.COLOR_BGR2GRAY)
+        return cv2.cvtColor(src_img, cv2.COLOR_GRAY2BGR)
     try:
         v1 = get()
         src = f.image
+        if src is not None and hasattr(v1, 'image') and v1.image is not None and acc in ('gray', 'rgb', 'bgr', 'ro_rgb', 'ro_bgr', 'rw_rgb', 'rw_bgr'):
+            want = conv(src, f.format, v1.format)
+            if v1.image.shape != want.shape or not np.array_equal(v1.image, want):
+                obs.append(f'{acc} of a {info["kind"]} {f.format} frame is not the documented conversion ({f.format}->{v1.format}) of its pixels'
+                           + (f' (max abs diff {int(np.abs(v1.image.astype(int) - want.astype(int)).max())})' if v1.image.shape == want.shape else ''))
         if src is not None and src.flags.writeable:
             src[0, 0] = 255 - src[0, 0]
             src[1, 1] = 255 - src[1, 1]
